@@ -61,10 +61,10 @@ void check_content(Ctx& ctx, const S& s, const std::set<uint32_t>& model, const 
 }
 
 // ================================================================== C03
-enum { H_BATCH = 1, H_UPD = 2, H_CONVERT = 3, H_QUERY = 4, H_SERDE = 5, H_RESET = 6, H_COPY = 7, H_FLAT = 8, H_TWINS = 9 };
+enum { H_BATCH = 1, H_UPD = 2, H_CONVERT = 3, H_QUERY = 4, H_SERDE = 5, H_RESET = 6, H_COPY = 7, H_FLAT = 8, H_TWINS = 9, H_SPIKES = 10 };
 struct C03World: World {
   const char* name() const override { return "c03"; }
-  const char* step_name(int k) const override { static const char* n[] = { "?", "batch", "update", "convert", "query", "serde", "reset", "copy", "flat_fill", "twin_coupons" }; return (k >= 1 && k <= 9) ? n[k] : "step"; }
+  const char* step_name(int k) const override { static const char* n[] = { "?", "batch", "update", "convert", "query", "serde", "reset", "copy", "flat_fill", "twin_coupons", "spikes" }; return (k >= 1 && k <= 10) ? n[k] : "step"; }
   std::string family_of(const Plan&) const override { return "hll_sketch"; }
   Plan generate(u64 run_seed, int tier) override {
     Plan p; p.run_seed = run_seed; Rng rc(run_seed, "cfg"), rp(run_seed, "plan");
@@ -83,6 +83,7 @@ struct C03World: World {
       else if (roll < 97) { s.kind = H_COPY; s.a = static_cast<i64>(rp.below(8)); s.b = static_cast<i64>(rp.below(8)); }
       else if (rp.chance(1, 3) && lg_k <= 8) { s.kind = H_FLAT; s.a = static_cast<i64>(rp.below(1000000)); s.b = static_cast<i64>(rp.below(3)); }
       else if (rp.chance(1, 2)) { s.kind = H_TWINS; s.a = static_cast<i64>(rp.below(1000000)); s.b = static_cast<i64>(rp.below(8)); }
+      else if (rp.chance(1, 2)) { s.kind = H_SPIKES; s.a = static_cast<i64>(rp.below(1000)); s.b = static_cast<i64>(rp.below(14)); }
       else s.kind = H_RESET;
       p.steps.push_back(s);
     }
@@ -124,6 +125,12 @@ struct C03World: World {
         }
         case H_COPY: { size_t i = static_cast<size_t>(s.a) % sk.size(), j = static_cast<size_t>(s.b) % sk.size(); if (same_order[i] == same_order[j] && (i < 3) == (j < 3) && (i >= 3 && i < 5) == (j >= 3 && j < 5)) { ds::target_hll_type t = sk[j].get_target_type(); sk[j] = S(sk[i], t); } ctx.nontrivial = true; break; }
         case H_RESET: { for (S& x : sk) x.reset(); model.clear(); batches.clear(); break; }
+        case H_SPIKES: {   // adversarial stream: 2..15 inputs whose register value is 16 or more (found once per process by searching the independent hash), in different slots:
+          // in HLL_4 each is an exception of the 4-bit array, enough of them make the exception table grow
+          static std::vector<i64> spikes; if (spikes.empty()) for (i64 x = 1; spikes.size() < 24 && x < 100000000; x++) if ((coupon_i64(x) >> 26) >= 16) spikes.push_back(x);
+          const size_t cnt = 2 + static_cast<size_t>(s.b), from = static_cast<size_t>(s.a) % spikes.size();
+          for (size_t q = 0; q < cnt && q < spikes.size(); q++) { const i64 x = spikes[(from + q) % spikes.size()]; model.insert(coupon_i64(x)); for (S& sx : sk) sx.update(static_cast<int64_t>(x)); }
+          ctx.probe("spikes"); ctx.nontrivial = true; break; }
         case H_TWINS: {   // adversarial stream: after a reset, two inputs whose coupons share all 26 address bits and differ in the value (found by a birthday
           // search on the independent hash), the smaller value first, among the first few distinct coupons; both coupons are content
           for (S& x : sk) x.reset(); model.clear(); batches.clear();
@@ -212,6 +219,7 @@ struct C04World: World {
       const int got_lg = un.get_lg_config_k();
       ctx.require(got_lg <= lg_max, "C04|lg_k-above-lg_max_k", std::to_string(got_lg));
       S r = un.get_result(ds::HLL_8);
+      // after reset() the gadget keeps a reduced lg_k on the pinned tree (raw items then promote it at that size): lg_k is not judged after a reset
       if (!after_reset) ctx.require(r.get_lg_config_k() == expect_lg && got_lg == expect_lg, "C04|result-lg_k", "result lg_k=" + std::to_string(r.get_lg_config_k()) + " union lg_k=" + std::to_string(got_lg) + " expected " + std::to_string(expect_lg) + std::string(" after ") + after);
       check_content(ctx, r, model, "C04", std::string("union result after ") + after, false);
       ctx.require(un.is_empty() == model.empty(), "C04|union-emptiness", "");
